@@ -550,6 +550,16 @@ Plan plan_C07(Rng& r, const std::string&) {
 				g.out.push_back(gen::mk(c, "bdd_incl", {bu ? abu : atd, bu ? bbu : btd, sel, bu, long(bu && r.chance(1, 10) ? 2 : r.below(2))}));
 			}
 			if (r.chance(1, 5)) {
+				// the two operands SHARE one transition table and differ in their final states only: a copy whose final set is changed
+				bool bu = r.chance(1, 2); int& n = bu ? g.nbu : g.ntd; int orig = r.chance(1, 2) ? (bu ? abu : atd) : (bu ? bbu : btd), x = n;
+				g.out.push_back(gen::mk(c, "bdd_copy", {orig, bu})); ++n;
+				g.out.push_back(gen::mk(c, "bdd_final", {x, bu, long(r.below(1000))})); if (r.chance(1, 3)) g.out.push_back(gen::mk(c, "bdd_final", {x, bu, long(r.below(1000))}));
+				for (int i = 0; i < 2; ++i) {
+					long sel = bu ? (r.chance(2, 3) ? 0 : 5) : 4 + long(r.below(4));
+					g.out.push_back(gen::mk(c, "bdd_incl", {i ? orig : x, i ? x : orig, sel, bu, long(r.below(2))}));
+				}
+			}
+			if (r.chance(1, 5)) {
 				// an operand that is the RESULT of an earlier operation (union, intersection, trimming, conversion), not a freshly loaded automaton
 				bool bu = r.chance(1, 2); int& n = bu ? g.nbu : g.ntd; int pa = bu ? abu : atd, pb = bu ? bbu : btd, x = n;
 				switch (r.below(4)) {
